@@ -36,7 +36,10 @@ RULE = ("(a) exhaustive: every vertex sequence of length 3-4 (thorough: 3-5; plu
         "(exact integers); cyclic shift / reversal / repeated closing vertex / duplicate vertex / "
         "power-of-two scaling invariance; inversion == complement; batch independence for plain "
         "and inverted filters (empty point set, only the points outside the bounding box, single "
-        "points, batches of 1e3..7e4 points). (c) .poly round trip of 1-6 filters (save, save_all, "
+        "points, batches of 1e3..7e4 points; and measurement-sized batches of 2^e + r events, "
+        "e = 16..21 (thorough: ..22, also 2^e and 2^e + 1), drawn from the points of a case whose "
+        "answers are mixed, through PolygonFilter.filter (plain/inverted, contiguous/strided) and "
+        "pnpoly.points_in_poly: every event must get the answer of its point in the small batch). (c) .poly round trip of 1-6 filters (save, save_all, "
         "file object; cleared and pre-populated registries): name, axes, inverted, id, points "
         "bit-exact, classifications, copy()/copy(invert=True); ids and counter compared with the "
         "model. (d) histories on one PolygonFilter object: 3-9 public mutations in random order "
@@ -45,7 +48,13 @@ RULE = ("(a) exhaustive: every vertex sequence of length 3-4 (thorough: 3-5; plu
         "every step filter() must equal a fresh filter built from the public state, the exact "
         "oracle, the Lean model and the polygon read back from save()'s text; 12 % of the steps edit "
         "IN PLACE the vertex container the caller handed over last (move/swap/append/delete; list or "
-        "array) - judged by whatever pf.points reports afterwards. (e) histories on a dataset "
+        "array) - judged by whatever pf.points reports afterwards; or the array the `points` property "
+        "returned; or the array/list that had been passed to the CONSTRUCTOR, or the array returned "
+        "by the `points` property of another filter of the history (original of a copy(), a copy, "
+        "the other side of a state transfer, an imported filter): then the filter under test must "
+        "be unchanged; `pf.points += offset`. Frame condition after every step: every other filter "
+        "object of the history (bystander) still reports the vertices / inversion and gives the "
+        "classifications of its snapshot unless the step operated on that object. (e) histories on a dataset "
         "(3 scalar features, 40-120 events around all polygons of the history, one power-of-two "
         "scale) with 1-2 polygon filters attached: 3-8 edits (points setter, in-place edit of the "
         "container handed over, inverted, axes, __setstate__, detach/attach, replace by copy, "
@@ -96,6 +105,15 @@ NOT_PROVED = [
     "`PolygonFilter.hash` changed) has no Lean model: that `ds.filter.polygon` follows every public "
     "edit of an attached filter, in-place edits of its vertex container included, is "
     "correspondence-only (part (e): exact oracle + `pf.filter()` + model of `filterPts` per filter)",
+    "ownership of vertex memory is correspondence-only (no heap in the Lean model: a filter's "
+    "polygon is a value): that a filter's polygon changes only through its own public interface, "
+    "i.e. not when the array passed to its constructor, the array returned by `points`, a copy() or "
+    "the original of a copy is edited, is checked by the frame oracle of the object histories (d); "
+    "containers handed to the `points` setter / `__setstate__` are kept by reference by today's "
+    "code and are deliberately not prescribed",
+    "batch independence (a point's answer does not depend on the length of the event array) is a "
+    "theorem of the model by construction (`pointsInPoly` is a map); for the code it is "
+    "correspondence-only and sampled at lengths up to 1.5*2^21 (thorough 1.5*2^22) events",
     "`PolygonFilter.remove`, `get_instance_from_id`, `unique_id_exists` are not modelled beyond "
     "`Reg.ids.contains`; `import_all_ids_unique` covers `_set_unique_id` + `instances.append` for "
     "every file and every registry satisfying the invariant",
@@ -241,19 +259,34 @@ def ray_parity(poly, p):
     return cnt % 2 == 1
 
 
-def near_py(poly, p):
-    """same guard as `DclabModel.Poly.near` (exact)"""
-    from fractions import Fraction as F
-    x, y = F(p[0]), F(p[1])
-    n = len(poly)
+def near_list(poly, pts):
+    """same guard as `DclabModel.Poly.near` (exact), for every point of `pts`: the point is level
+    with an edge in the half-open sense and within 2^-40 * (|xi| + |xj - xi|) of the exact crossing
+    abscissa `(xj-xi)*(y-yi)/(yj-yi)+xi`.  Evaluated on integers (all coordinates times one
+    common power of two), divisions cleared: |x - xint| <= B / 2^40 with
+    x - xint = ((x-xi)*(yj-yi) - (xj-xi)*(y-yi)) / (yj-yi)."""
+    ipoly, ipts = to_ints(poly, pts)
+    n = len(ipoly)
+    edges = []
     for i in range(n):
-        xi, yi = F(poly[i][0]), F(poly[i][1])
-        xj, yj = F(poly[i - 1][0]), F(poly[i - 1][1])
-        if (yi <= y < yj) or (yj <= y < yi):
-            xint = (xj - xi) * (y - yi) / (yj - yi) + xi
-            if abs(x - xint) <= (abs(xi) + abs(xj - xi)) / 2**40:
-                return True
-    return False
+        xi, yi = ipoly[i]
+        xj, yj = ipoly[i - 1]
+        if yi != yj:
+            edges.append((xi, yi, xj - xi, yj - yi, min(yi, yj), max(yi, yj),
+                          (abs(xi) + abs(xj - xi)) * abs(yj - yi)))
+    out = []
+    for (x, y) in ipts:
+        hit = False
+        for xi, yi, dx, dy, lo, hi, bound in edges:
+            if lo <= y < hi and abs((x - xi) * dy - dx * (y - yi)) << 40 <= bound:
+                hit = True
+                break
+        out.append(hit)
+    return out
+
+
+def near_py(poly, p):
+    return near_list(poly, [p])[0]
 
 
 def rat(v):
@@ -573,7 +606,9 @@ def batch_checks(impl, route, poly, pts, base, inv, want, k):
         reps = 1 + (1000 + (k * 131) % 70000) // n
         sets.append((f"a batch of {reps * n} points", list(range(n)) * reps))
     for name, idx in sets:
-        for inverted in (False, True):
+        # only PolygonFilter.filter inverts itself; on the other routes `classify` negates the
+        # answer of the plain call (nothing of the implementation would be observed twice)
+        for inverted in ((False, True) if route == "filter" else (False,)):
             got = impl.classify(route, poly, [pts[i] for i in idx], inverted=inverted)
             ref = inv if inverted else base
             tag = " (inverted filter)" if inverted else ""
@@ -594,6 +629,76 @@ def batch_checks(impl, route, poly, pts, base, inv, want, k):
                                   f"batch", i))
                     break
     return fails
+
+
+def big_batch_sizes(rng, thorough):
+    """lengths of measurement-sized event arrays: 2^e + r, spread over the orders of magnitude of
+    real measurements (1e5 .. several 1e6 events); thorough also the powers of two themselves"""
+    if not thorough:
+        exps = [rng.randint(16, 19), 20, 21]
+        return [(1 << e) + rng.randint(1, 1 << (e - 1)) for e in exps]
+    out = []
+    for e in range(16, 23):
+        out += [(1 << e) + rng.randint(1, 1 << (e - 1)), (1 << e) + rng.randint(1, 1 << (e - 1)),
+                1 << e, (1 << e) + 1]
+    return out
+
+
+def big_batch_check(impl, poly, pts, base, want, n_big, seed, inverted, strided, route="filter"):
+    """batch independence at the size of a real measurement: `n_big` events, each a (seeded) copy
+    of one of `pts`; every event must get the answer its point gets in the small batch `base`
+    (and hence the oracle's `want`).  Evaluated with numpy only.  Returns None or
+    (what, index of the first wrong event, number of wrong events)"""
+    idx = np.random.RandomState(seed % (2**32)).randint(0, len(pts), size=n_big)
+    small = np.array(pts, dtype=np.float64).reshape(-1, 2)
+    ref = np.array(base, dtype=bool)[idx] != inverted
+    try:
+        if route == "filter":
+            pf = impl.pf_inv if inverted else impl.pf
+            pf.points = np.array(poly, dtype=np.float64)
+            if strided:
+                a = small[idx]
+                got = pf.filter(a[:, 0], a[:, 1])
+            else:
+                got = pf.filter(small[idx, 0], small[idx, 1])
+        else:
+            got = impl.pnpoly.points_in_poly(small[idx], np.array(poly, dtype=np.float64))
+            if inverted:
+                got = ~np.asarray(got, dtype=bool)
+        got = np.asarray(got)
+        if got.shape != (n_big,):
+            return (f"returns an array of shape {got.shape} for {n_big} events", 0, n_big)
+        got = got.astype(bool)
+    except Exception as e:  # noqa
+        return (f"raises {type(e).__name__}: {e}"[:160], 0, n_big)
+    bad = np.flatnonzero(got != ref)
+    if len(bad) == 0:
+        return None
+    i = int(bad[0])
+    j = int(idx[i])
+    w = want[j]
+    orc = "" if w is None else (f"; a generic ray from it crosses the boundary an "
+                                f"{'odd' if w else 'even'} number of times")
+    return (f"event {i} of a batch of {n_big} events (inverted={inverted}) is a copy of point "
+            f"{tuple(pts[j])} and is classified {bool(got[i])}, but {bool(ref[i])} within a batch of "
+            f"{len(pts)} points{orc} ({len(bad)} events wrong, the first at index {i}, the last at "
+            f"{int(bad[-1])})", i, len(bad))
+
+
+def shrink_big_batch(impl, rp):
+    """smallest failing batch length found by bisection (the answer need not be monotone in the
+    length: any failing length is a valid replay)"""
+    def bad(n):
+        return big_batch_check(impl, rp["poly"], rp["pts"], rp["base"], rp["want"], n, rp["seed"],
+                               rp["inverted"], rp["strided"], rp["route"])
+    lo, hi = len(rp["pts"]), rp["n"]
+    while hi - lo > 1:
+        mid = (lo + hi) // 2
+        if bad(mid):
+            hi = mid
+        else:
+            lo = mid
+    return dict(rp, n=hi)
 
 
 def shrink_poly(impl, route, poly, pt, exact, k=3):
@@ -915,21 +1020,24 @@ def gen_history(rng):
     def poly():
         return [list(v) for v in gen_polygon(rng)[2]]
     h = {"init": {"axes": rng.sample(FEATS, 2), "points": poly(), "inverted": rng.random() < 0.4,
-                  "name": gen_name(rng, True)},
+                  "name": gen_name(rng, True), "as": rng.choice(["list", "array", "array", "tuple"])},
          "pseed": rng.randrange(10**9), "ops": []}
     for _ in range(rng.randint(3, 9)):
         r = rng.random()
-        if r < 0.12:        # the caller keeps (and edits) the vertex container it handed over
+        if r < 0.17:        # the caller edits IN PLACE a vertex container it still holds
             op = gen_inplace_op(rng)
-        elif r < 0.18:
-            op = {"op": "points", "points": poly(), "as": rng.choice(["list", "array", "tuple"])}
+            op["target"] = rng.choice(["given", "given", "ctor", "getter", "bystander", "bystander"])
+        elif r < 0.22:      # `pf.points += offset`
+            op = {"op": "augment", "u": rng.randint(-8, 8), "v": rng.randint(-8, 8)}
         elif r < 0.28:
+            op = {"op": "points", "points": poly(), "as": rng.choice(["list", "array", "tuple"])}
+        elif r < 0.36:
             op = {"op": "inverted"}
-        elif r < 0.34:
+        elif r < 0.41:
             op = {"op": "axes", "axes": rng.sample(FEATS, 2)}
-        elif r < 0.40:
+        elif r < 0.46:
             op = {"op": "name", "name": gen_name(rng, True)}
-        elif r < 0.62:      # editing / session-restore interface
+        elif r < 0.64:      # editing / session-restore interface
             op = {"op": "setstate", "keep_points": rng.random() < 0.25}
             if not op["keep_points"]:
                 op["points"] = poly()
@@ -939,11 +1047,11 @@ def gen_history(rng):
                 op["name"] = gen_name(rng, True)
             if rng.random() < 0.3:
                 op["axes"] = rng.sample(FEATS, 2)
-        elif r < 0.70:
+        elif r < 0.74:
             op = {"op": "copy", "invert": rng.random() < 0.5, "switch": rng.random() < 0.6}
-        elif r < 0.82:      # pickle-style: state of this filter put into another live object
+        elif r < 0.84:      # pickle-style: state of this filter put into another live object
             op = {"op": "transfer", "points": poly(), "switch": rng.random() < 0.7}
-        elif r < 0.92:
+        elif r < 0.93:
             op = {"op": "save_import", "switch": rng.random() < 0.6,
                   "others": rng.randint(0, 2)}
         else:
@@ -975,6 +1083,26 @@ def parse_poly_text(text):
     return out
 
 
+def history_frame_check(b, refresh, seed):
+    """bystander `b` = {"obj": filter, "role": ..., "snap": ...}: (re)take the snapshot of its
+    public polygon / inversion / classification of a few probe points, or compare with it"""
+    f = b["obj"]
+    pts_now = [tuple(map(float, v)) for v in np.array(f.points, dtype=float)]
+    inv_now = bool(f.inverted)
+    if refresh:
+        rng = __import__("random").Random(seed)
+        scale = max((abs(c) for v in pts_now for c in v), default=1.0) or 1.0
+        a = np.array(gen_points(rng, pts_now, scale, 6), dtype=np.float64)
+        b["snap"] = (pts_now, inv_now, a, [bool(x) for x in f.filter(a[:, 0].copy(), a[:, 1].copy())])
+        return None
+    pts0, inv0, a, bits0 = b["snap"]
+    if pts_now != pts0 or inv_now != inv0:
+        return "reports other vertices / another inversion flag than before"
+    if [bool(x) for x in f.filter(a[:, 0].copy(), a[:, 1].copy())] != bits0:
+        return "classifies the same points differently than before"
+    return None
+
+
 def run_history(ctx, impl, h):
     """returns (failures, observations for the model); a failure = (step index, what)"""
     import io
@@ -985,24 +1113,58 @@ def run_history(ctx, impl, h):
         PF.clear_all_filters()
         try:
             i0 = h["init"]
-            pf = PF(axes=tuple(i0["axes"]), points=i0["points"], inverted=i0["inverted"],
+            convs = {"list": lambda v: [list(q) for q in v],
+                     "array": lambda v: np.array(v, dtype=float),
+                     "tuple": lambda v: tuple(map(tuple, v))}
+            # the container handed to the CONSTRUCTOR stays in the caller's hands (private copy of
+            # the recorded vertices: an in-place step must not edit the replay itself)
+            ctor_given = convs[i0.get("as", "list")](i0["points"])
+            pf = PF(axes=tuple(i0["axes"]), points=ctor_given, inverted=i0["inverted"],
                     name=i0["name"])
             prev_pts = []
-            given = None               # the vertex container the caller handed over last
+            given = None               # the vertex container the caller handed to the setter last
+            watch = []                 # bystanders: other filter objects of this history
+            last = None                # public (points, inverted) of `pf` at the last observation
             for step, op in enumerate([{"op": "init"}] + h["ops"]):
                 kind = op["op"]
                 expect = None          # (points, inverted) the step must establish, if known
+                frame = None           # set: the step does not touch `pf` at all (says what it did)
+                touched = None         # bystander whose own state the step may have changed
                 if kind == "points":
-                    conv = {"list": lambda v: [list(q) for q in v],
-                            "array": lambda v: np.array(v, dtype=float),
-                            "tuple": lambda v: tuple(map(tuple, v))}[op["as"]]
-                    given = conv(op["points"])
+                    given = convs[op["as"]](op["points"])
                     pf.points = given
                     expect = ([list(q) for q in op["points"]], pf.inverted)
                 elif kind == "inplace":
-                    # judged by whatever `pf.points` reports afterwards (whether the filter
-                    # aliases or copies the container is not prescribed)
-                    inplace_modify(given if given is not None else pf.points, op)
+                    target = op.get("target", "given")
+                    if target == "bystander" and not watch:
+                        target = "getter"
+                    if target == "ctor":
+                        # a filter is created FROM a polygon: what the caller does afterwards with
+                        # the array/list it passed to the constructor is not an edit of the filter
+                        if inplace_modify(ctor_given, op) is not None:
+                            frame = ("the array/list that had been passed to the constructor of "
+                                     "the first filter was edited in place")
+                    elif target == "bystander":
+                        touched = watch[int(op["j"] * len(watch)) % len(watch)]
+                        if inplace_modify(touched["obj"].points, op) is not None:
+                            frame = (f"the array returned by the `points` property of ANOTHER "
+                                     f"filter object ({touched['role']}) was edited in place")
+                    elif target == "getter":
+                        # judged by whatever `pf.points` reports afterwards (whether the property
+                        # returns a view or a copy is not prescribed); other filters: unchanged
+                        inplace_modify(pf.points, op)
+                    else:
+                        # the container last handed to the setter / __setstate__: whether the
+                        # filter keeps a reference or a copy is not prescribed (today: reference)
+                        inplace_modify(given if given is not None else pf.points, op)
+                elif kind == "augment":
+                    before = np.array(pf.points, dtype=np.float64)
+                    sc = float(np.abs(before).max()) or 1.0
+                    off = np.array([op["u"], op["v"]], dtype=np.float64) * \
+                        math.ldexp(1.0, math.frexp(sc)[1] - 4)
+                    pf.points += off
+                    given = None
+                    expect = ((before + off).tolist(), pf.inverted)
                 elif kind == "inverted":
                     pf.inverted = not pf.inverted
                 elif kind == "axes":
@@ -1025,9 +1187,12 @@ def run_history(ctx, impl, h):
                     want_pts, want_inv = pf.points.tolist(), bool(pf.inverted) != op["invert"]
                     q = pf.copy(invert=op["invert"])
                     if op["switch"]:
+                        watch.append({"obj": pf, "role": "the original of which `pf` is a copy()"})
                         pf = q
                         given = None
                         expect = (want_pts, want_inv)
+                    else:
+                        watch.append({"obj": q, "role": "a copy() of `pf`"})
                 elif kind == "transfer":
                     q = PF(axes=("area_um", "deform"), points=op["points"])
                     q.filter(np.array([0.0, 1.0]), np.array([0.0, 1.0]))     # q has been used
@@ -1036,9 +1201,12 @@ def run_history(ctx, impl, h):
                     q.__setstate__(st)
                     want = (pf.points.tolist(), bool(pf.inverted))
                     if op["switch"]:
+                        watch.append({"obj": pf, "role": "the filter whose state was transferred"})
                         pf = q
                         given = st["points"]
                         expect = want
+                    else:
+                        watch.append({"obj": q, "role": "a filter that received the state of `pf`"})
                 elif kind == "receive":     # this filter receives the state of another one
                     q = PF(axes=("area_um", "deform"), points=op["points"], inverted=op["inverted"])
                     st = q.__getstate__()
@@ -1046,6 +1214,7 @@ def run_history(ctx, impl, h):
                     pf.__setstate__(st)
                     given = st["points"]
                     expect = ([list(q) for q in op["points"]], op["inverted"])
+                    watch.append({"obj": q, "role": "the filter whose state `pf` received"})
                 elif kind == "save_import":
                     path = ctx.workdir / "hist.poly"
                     if path.exists():
@@ -1060,12 +1229,29 @@ def run_history(ctx, impl, h):
                         fails.append((step, "import_all into the live registry produced a "
                                             f"duplicate unique id: {ids}"))
                     if op["switch"]:
+                        watch.append({"obj": pf, "role": "the filter that was saved"})
                         pf = loaded[-1]
                         given = None
                         expect = want
+                    elif loaded:
+                        watch.append({"obj": loaded[-1], "role": "the filter imported from the "
+                                                                 "file that `pf` was saved to"})
                 # ------------- observe -------------
                 cur_pts = [tuple(map(float, v)) for v in np.array(pf.points, dtype=float)]
                 inv = bool(pf.inverted)
+                if frame is not None and last is not None and (cur_pts, inv) != last:
+                    fails.append((step, f"after {kind}: {frame}; no operation was applied to the "
+                                        f"filter under test, but its polygon changed (vertex "
+                                        f"memory shared with the caller / another filter)"))
+                last = (cur_pts, inv)
+                # frame condition: a filter classifies by ITS polygon; it changes only through
+                # its own public interface (or a container handed to its own setter)
+                for b in watch[-4:]:
+                    bad = history_frame_check(b, b is touched or "snap" not in b,
+                                              f"{h['pseed']}-{step}-b")
+                    if bad:
+                        fails.append((step, f"after {kind}: {b['role']} {bad}, although the step "
+                                            f"operated on another filter object only"))
                 if expect is not None:
                     ep = [tuple(map(float, v)) for v in expect[0]]
                     if ep != cur_pts or bool(expect[1]) != inv:
@@ -1090,7 +1276,7 @@ def run_history(ctx, impl, h):
                 if not same_hash:
                     fails.append((step, f"after {kind}: hash differs from the hash of a fresh filter "
                                         f"with the same public state"))
-                skip = [near_py(cur_pts, q) for q in pts]
+                skip = near_list(cur_pts, pts)
                 want = judge(cur_pts, pts, False, skip)
                 for j, w in enumerate(want):
                     if w is not None and got[j] != (w != inv):
@@ -1273,7 +1459,7 @@ def run_ds_history(ctx, impl, h):
                     cur = [tuple(map(float, v)) for v in np.array(pf.points, dtype=float)]
                     inv = bool(pf.inverted)
                     pts = list(zip(xs.tolist(), ys.tolist()))
-                    skip = [near_py(cur, q) for q in pts]
+                    skip = near_list(cur, pts)
                     w = judge(cur, pts, False, skip)
                     for i in range(n):
                         wi = None if w[i] is None else (w[i] != inv)
@@ -1420,7 +1606,7 @@ def run(ctx):
     for idx, c in enumerate(cases):
         exact = c["exact"]
         full = (not exact) or idx % 16 == 0        # every route on a sample of the grid cases
-        skip = [False] * len(c["pts"]) if exact else [near_py(c["poly"], p) for p in c["pts"]]
+        skip = [False] * len(c["pts"]) if exact else near_list(c["poly"], c["pts"])
         want = judge(c["poly"], c["pts"], exact, skip)
         per_route = {}
         for route, laws in impl.routes(full):
@@ -1448,6 +1634,33 @@ def run(ctx):
         ctx.stat("points_level_with_vertex", lv)
         ctx.stat("skipped_near_discontinuity", sum(skip))
         ctx.stat("verts", len(c["poly"]))
+    # ---------------- measurement-sized batches (1e5 .. several 1e6 events) ----------------
+    mixed = [i for i, (c, (skip, pr)) in enumerate(zip(cases, results))
+             if "0" in pr.get("filter", "e") and "1" in pr["filter"] and not pr["filter"].startswith("err")]
+    for j, n_big in enumerate(big_batch_sizes(ctx.rng, ctx.thorough) if mixed else []):
+        i = mixed[ctx.rng.randrange(len(mixed))]
+        c = cases[i]
+        base = [b == "1" for b in results[i][1]["filter"]]
+        want = judge(c["poly"], c["pts"], c["exact"], results[i][0])
+        seed = ctx.rng.randrange(2**31)
+        for route in ("filter", "pnpoly"):
+            inverted = (j % 2 == 1) and route == "filter"
+            bad = big_batch_check(impl, c["poly"], c["pts"], base, want, n_big, seed, inverted,
+                                  j % 3 == 0, route)
+            ctx.stat("big_batches")
+            ctx.stat("big_batch_events", n_big)
+            ctx.stat("big_batch log2(n)=%d" % (n_big.bit_length() - 1))
+            if bad and not spec_failed:
+                spec_failed = True
+                rp = shrink_big_batch(impl, {
+                    "part": "big-batch", "route": route, "poly": [list(v) for v in c["poly"]],
+                    "pts": [list(v) for v in c["pts"]], "base": base, "want": want, "n": n_big,
+                    "seed": seed, "inverted": inverted, "strided": j % 3 == 0})
+                b2 = big_batch_check(impl, rp["poly"], rp["pts"], base, want, rp["n"], seed,
+                                     inverted, rp["strided"], route) or bad
+                ctx.violation("spec", f"compiled code via {route}: the classification of a point "
+                                      f"depends on the size of the batch: {b2[0]}", rp)
+        ctx.case(("big-batch", c["poly"], n_big, seed), nontrivial=True)
     # grid_points_in_poly on the integer grid (compiled code only; mirror)
     grid_bad = None
     for idx, c in enumerate(cases):
@@ -1505,7 +1718,7 @@ def run(ctx):
                          "answers": [o["bits"] for o in obs[:5]]} if j == 0 else None)
         ctx.stat("histories")
         for o in h["ops"]:
-            ctx.stat("hist_op=" + o["op"])
+            ctx.stat("hist_op=" + o["op"] + ("/" + o.get("target", "given") if o["op"] == "inplace" else ""))
         ctx.stat("history_classifications", sum(len(o["pts"]) for o in obs))
         if fails and not hist_failed:
             hist_failed = True
@@ -1637,7 +1850,7 @@ def run(ctx):
         file_side = any(m[0] == "import_all" for m in mirror_bad)
         for _ in range((15000 if ctx.thorough else 1500) if poly_side else 0):
             c = gen_random_case(ctx.rng)
-            skip = [near_py(c["poly"], p) for p in c["pts"]]
+            skip = near_list(c["poly"], c["pts"])
             want = judge(c["poly"], c["pts"], False, skip)
             kx = ctx.rng.randrange(1000)
             for route, laws in impl.routes(True):
@@ -1710,6 +1923,11 @@ def replay(ctx, data):
         print("ds.filter.polygon per step:", [o["bits"] for o in obs])
         print("dataset history failures:", fails)
         return bool(fails)
+    if rp.get("part") == "big-batch":
+        bad = big_batch_check(impl, rp["poly"], rp["pts"], rp["base"], rp["want"], rp["n"],
+                              rp["seed"], rp["inverted"], rp["strided"], rp["route"])
+        print("batch of", rp["n"], "events:", bad)
+        return bool(bad)
     if rp.get("part") == "containment":
         poly = [tuple(v) for v in rp["poly"]]
         pt = tuple(rp["point"])
